@@ -396,13 +396,31 @@ func (c *controller) stop() {
 
 const stepTimeout = 3 * time.Second
 
+// hangs so far in this process. A change that makes goroutines wait inside a region would otherwise
+// cost stepTimeout per case: after a few hangs the timeout shrinks, after many the forced cases are
+// no longer run at all (the failures already recorded decide the check).
+var hangCount atomic.Int64
+
+const (
+	hangsBeforeShortTimeout = 3
+	hangsBeforeSkipping     = 25
+)
+
+func curTimeout() time.Duration {
+	if hangCount.Load() >= hangsBeforeShortTimeout {
+		return 250 * time.Millisecond
+	}
+	return stepTimeout
+}
+
 // wait receives the next message of the released goroutine.
 func (c *controller) wait() (msg, bool) {
 	select {
 	case m := <-c.evt:
 		return m, true
-	case <-time.After(stepTimeout):
+	case <-time.After(curTimeout()):
 		c.hung = true
+		hangCount.Add(1)
 		return msg{}, false
 	}
 }
